@@ -897,10 +897,53 @@ def oracle(ctx, meta):
     return d
 
 
+def moment_test(cuqi, impl, prec, eps, md, n_chains=1500, n_tr=3, seed=12345):
+    """fixed-seed test: chains started from exact draws of N(0, 1/prec) must still have that law after n_tr transitions
+    (mean and second moment within 6 sigma).  Search stage only: a statistical test is never part of the green path."""
+    import io, contextlib
+    rs = np.random.RandomState(seed)
+    saved = np.random.get_state()
+    np.random.seed(seed + 1)
+    T = mk_target(cuqi, {"kind": "gauss", "prec": [prec]})
+    xs = []
+    try:
+        for c in range(n_chains):
+            x0 = rs.standard_normal(1) / math.sqrt(prec)
+            if impl == "exp":
+                from cuqi.experimental.mcmc import NUTS
+                sm = NUTS(T, initial_point=x0, max_depth=md, step_size=eps)
+                sm.sample(n_tr)
+                xs.append(float(sm.current_point[0]))
+            else:
+                sm = cuqi.sampler.NUTS(T, x0=x0, max_depth=md, adapt_step_size=eps)
+                with contextlib.redirect_stdout(io.StringIO()):
+                    th, _, _ = sm._sample(n_tr + 1, 0)
+                xs.append(float(th[0, -1]))
+    finally:
+        np.random.set_state(saved)
+    xs = np.array(xs) * math.sqrt(prec)
+    n = len(xs)
+    zm = xs.mean() * math.sqrt(n)                       # ~ N(0,1)
+    zv = (np.mean(xs ** 2) - 1) * math.sqrt(n / 2.0)    # ~ N(0,1)
+    if abs(zm) > 6 or abs(zv) > 6:
+        return ("after %d transitions from exact draws of N(0,1/%g) (step %g, max_depth %d, %d chains, fixed seed) the standardised mean is %.2f sigma and the "
+                "second moment %.2f sigma away from the target's" % (n_tr, prec, eps, md, n, zm, zv))
+    return None
+
+
 def search(ctx):
     import cuqi
     rng = random.Random(ctx.seed + 77)
     out = []
+    for impl in ("exp", "leg"):
+        for (prec, eps, md) in ((1.0, 0.5, 2), (4.0, 0.75, 3)):
+            try:
+                d = moment_test(cuqi, impl, prec, eps, md)
+            except Exception:
+                d = None
+            if d:
+                out.append(Case(expr="true", meta={"impl": impl, "moment_test": [prec, eps, md]}, impl_fail=d, signature="NUTS.%s.moments" % impl))
+                return out
     for it in range(ctx.n(150, 500)):
         tk = TARGET_KINDS[it % len(TARGET_KINDS)]
         md = [1, 0, 1, 2, 1, 1, 2][it % 7]
@@ -928,6 +971,8 @@ def known_witnesses(ctx):
 
 
 def classify(meta, detail):
+    if meta.get("moment_test"):
+        return "NUTS.%s.moments" % meta.get("impl", "?")
     return "NUTS.%s.orbit_stationarity" % meta.get("impl", "?")
 
 
@@ -938,6 +983,9 @@ def replay(ctx, meta):
     print(json.dumps(m, indent=1)[:3000])
     if m.get("witness") == SIG_PINF or meta.get("signature") == SIG_PINF and "scripts" not in m:
         print("witness:", pinf_witness(cuqi))
+        return 0
+    if m.get("moment_test"):
+        print("moment test:", moment_test(cuqi, m["impl"], *m["moment_test"]) or "within 6 sigma")
         return 0
     if m.get("orbit"):
         print("stationarity of the counting measure on the orbit under the real sampler:",
